@@ -1,1 +1,152 @@
--- property theorems for C11 (stub)
+/- C11 property theorems (parser output depends only on the bytes; data prints and parses back).
+   Models: JanetModel.Parse.Model (parse.c), JanetModel.PP.Jdn (pp.c %j); tables from Gen/Parse.lean (regenerated). -/
+import JanetModel.Parse.Model
+import JanetModel.Parse.Lemmas
+import JanetModel.PP.Jdn
+
+namespace JanetModel.Props.C11
+open JanetModel.Parse JanetModel.PP JanetModel.Gen.Parse
+
+/-! ## termination of the inner loop of `janet_parser_consume` -/
+
+theorem loop_total (scan : List B → Option String) (c : B) :
+    ∀ fuel p, mu p c < fuel → (consumeLoop scan fuel p c).isSome = true := by
+  intro fuel
+  induction fuel with
+  | zero => intro p h; omega
+  | succ n ih =>
+    intro p h
+    unfold consumeLoop
+    by_cases he : p.error.isSome = true
+    · simp [he]
+    · simp only [he]
+      cases hstep : step scan p c with
+      | mk p' consumed =>
+        cases consumed with
+        | true => simp
+        | false =>
+          have hm := step_measure scan p c (by rw [hstep])
+          rw [hstep] at hm
+          simp only [Bool.false_eq_true, if_false]
+          rcases hm with he' | hlt
+          · have h1 : 1 ≤ mu p c := mu_pos p c
+            cases n with
+            | zero => omega
+            | succ k => unfold consumeLoop; simp [he']
+          · exact ih p' (by simp only at hlt; omega)
+
+/-- ★ The `while (!consumed && !parser->error)` loop terminates from EVERY parser state (well-formed or not) on every
+    byte: the fuel `2 * statecount + 3` the model gives it is never exhausted.  Each non-consuming step pops a frame
+    (tokenchar, longstring end), replaces the top frame (atsign -> tokenchar) or pushes a tokenchar frame that
+    consumes next (root). -/
+theorem consume_total (scan : List B → Option String) (p : Parser) (c : B) :
+    (consumeLoop scan (loopFuel p) p c).isSome = true := by
+  apply loop_total
+  have := mu_le p c
+  unfold loopFuel
+  omega
+
+/-- the position update of `consume` does not change the stack, so the bound also holds inside `consumeRaw` -/
+theorem consumeRaw_never_out_of_fuel (scan : List B → Option String) (p : Parser) (c : B) :
+    (consumeLoop scan (loopFuel (advancePos p c)) (advancePos p c) c).isSome = true :=
+  consume_total scan (advancePos p c) c
+
+/-! ## chunking, cloning -/
+
+/-- ★ Feeding a byte string in two chunks is the same as feeding it whole -- for every split, from every parser state
+    (including a parser with a latched error or a dead parser, where `consume` panics and leaves the state alone). -/
+theorem chunk_independent (scan : List B → Option String) (r : Run) (a b : List B) :
+    feed scan r (a ++ b) = feed scan (feed scan r a) b := by
+  simp [feed, List.foldl_append]
+
+/-- the event stream of a whole text equals the one obtained through any two-chunk split (and, by induction, any chunking) -/
+theorem chunk_independent_events (scan : List B → Option String) (a b : List B) :
+    parseAll scan (a ++ b) = (finish scan (feed scan (feed scan Run.init a) b)).out := by
+  simp [parseAll, chunk_independent]
+
+theorem chunk_independent_many (scan : List B → Option String) (r : Run) (chunks : List (List B)) :
+    feed scan r chunks.flatten = chunks.foldl (feed scan) r := by
+  induction chunks generalizing r with
+  | nil => simp [feed]
+  | cons c cs ih => simp [chunk_independent, ih]
+
+/-- ★ Continuing on a clone gives what continuing on the original gives, and (values being immutable in the model)
+    feeding the clone cannot affect the original.  The content is in the next theorem and in the harness. -/
+theorem clone_independent (scan : List B → Option String) (r : Run) (bs : List B) :
+    feed scan { r with p := clone r.p } bs = feed scan r bs := rfl
+
+/-- regenerated obligation: `janet_parser_clone` copies every field of `struct JanetParser` (janet.h) -/
+theorem clone_copies_every_field : ∀ f ∈ parserFields, f ∈ cloneFields := by decide
+
+/-- the model's `Frame` has exactly the fields of `struct JanetParseState` -/
+theorem frame_fields_modelled : frameFields = ["counter", "argn", "flags", "line", "column", "consumer"] := by decide
+
+/-! ## queries are pure; flush / error restore the frame invariant -/
+
+/-- `parser/status`, `parser/has-more`, `parser/where`, `parser/state` are functions of the parser in the model (they return
+    no new parser); `parser/error` without a latched error and `parser/produce` on an empty queue return the parser unchanged. -/
+theorem status_produce_pure_partial (p : Parser) :
+    (p.error = none → (takeError p).2 = p) ∧ (p.pending = 0 → (produce p).2 = p ∧ (produceWrapped p).2 = p) := by
+  constructor
+  · intro h; simp [takeError, h]
+  · intro h; simp [produce, produceWrapped, h]
+
+/-- `parser/produce` changes only the value queue: position, buffer, error latch, flag and the kind / position of every
+    frame are untouched (only the root frame's count is decremented). -/
+theorem produce_touches_only_queue (p : Parser) :
+    (produce p).2.line = p.line ∧ (produce p).2.column = p.column ∧ (produce p).2.lookback = p.lookback ∧
+    (produce p).2.buf = p.buf ∧ (produce p).2.error = p.error ∧ (produce p).2.flag = p.flag ∧
+    (produce p).2.states.length = p.states.length := by
+  unfold produce produceWrapped
+  by_cases h : (p.pending == 0) = true
+  · simp [h]
+  · simp only [h]
+    cases hr : p.args.reverse with
+    | nil => simp
+    | cons v rest =>
+      simp [decRootArgn]
+      cases hs : p.states.reverse with
+      | nil => simp at hs; simp [hs]
+      | cons r rs =>
+        have : p.states.length = (r :: rs).length := by rw [← hs]; simp
+        simp [this]
+
+/-- ★ (regenerated obligation, needs `janet_parser_flush` to reset `states[0].argn`): after `parser/flush` -- hence after
+    `parser/error` -- the frame walk of `parser/state` stays inside the (now empty) argument array. -/
+theorem flush_frames_in_bounds (p : Parser) : framesInBounds (flush p) = true := by
+  have h : flushResetsRootArgn = true := by decide
+  unfold framesInBounds flush
+  simp only [h, if_true]
+  have : ∀ l : List Frame, ((List.filter (fun s => hasFlag s.flags PFLAG_CONTAINER) (l.map fun s => { s with argn := 0 })).map (·.argn)).sum = 0 := by
+    intro l
+    induction l with
+    | nil => simp
+    | cons x xs ih =>
+      simp only [List.map_cons, List.filter_cons]
+      split <;> simp_all
+  have h2 := this (List.drop (p.states.length - 1) p.states)
+  simpa [List.map_drop] using h2
+
+theorem takeError_frames_in_bounds (p : Parser) (h : p.error.isSome = true) : framesInBounds (takeError p).2 = true := by
+  unfold takeError
+  cases he : p.error with
+  | none => simp [he] at h
+  | some e => simp only; exact flush_frames_in_bounds _
+
+/-! ## positions -/
+
+/-- line / column / lookback as a fold of the CR/LF rule over the bytes alone -/
+def posStep (s : Nat × Nat × Int) (c : B) : Nat × Nat × Int :=
+  if c == 13 then (s.1 + 1, 0, Int.ofNat c.toNat)
+  else if c == 10 then ((if s.2.2 != 13 then s.1 + 1 else s.1), 0, Int.ofNat c.toNat)
+  else (s.1, s.2.1 + 1, Int.ofNat c.toNat)
+
+/-- `advancePos` is `posStep`: it reads only line, column, lookback and the byte -/
+theorem advancePos_is_posStep (p : Parser) (c : B) :
+    ((advancePos p c).line, (advancePos p c).column) = ((posStep (p.line, p.column, p.lookback) c).1, (posStep (p.line, p.column, p.lookback) c).2.1) := by
+  unfold advancePos posStep
+  split
+  · rfl
+  · split <;> rfl
+
+end JanetModel.Props.C11
